@@ -70,6 +70,8 @@ Section Shapes.
       rewrite sw_loop_S in H.
       destruct (Nat.leb (String.length word) ci).
       { injection H as _ _ _ <-. apply extends_refl. }
+      destruct (star_first v c T state).
+      { injection H as _ _ _ <-. apply extends_refl. }
       cbv zeta in H. bind H as E0.
       destruct a as [st1 adv| |].
       - eapply IH; eauto.
